@@ -289,6 +289,37 @@ func (c *Check) fixedC11() []*plan.Plan {
 		p.Tasks = [][]plan.Op{ops}
 		out = append(out, p)
 	}
+	// (1d) the moment of the call and the process it is made in: other dates (the simulated clock is moved
+	// before the first call), time zones and locales, other environment variables, other numbers of Ps and CPUs;
+	// the reference runs at the start of the simulated clock in the default process
+	{
+		pd := append([]gen.GenDoc{}, docs[:min(5, len(docs))]...)
+		pd = append(pd, gen.PagerDoc(0x11d1), gen.LinkFarm(0x11d2, 600))
+		envs := gen.ProcEnvs()
+		k := 0
+		for di, d := range pd {
+			url := d.URL
+			if url == "" {
+				url = "http://example.com/article"
+			}
+			for v := 0; v < 5; v++ {
+				p := c.newPlan("process-env", run, uint64(di*100+v), "bubble")
+				run++
+				p.Docs = []plan.Doc{plan.NewDoc("d0", d.Bytes, d.Origin)}
+				p.Trees = []plan.Tree{{ID: "t0", Doc: "d0", Root: "document"}}
+				p.Options = []plan.Opt{optWithURL("o0", url, uint(v%2), 0)}
+				p.Tasks = [][]plan.Op{{{Op: "Apply", Tree: "t0", Opt: "o0"}, {Op: "Reader", Doc: "d0", Opt: "o0"}, {Op: "File", Doc: "d0", Opt: "o0"}}}
+				if v%2 == 0 {
+					p.Schedule.StartOffsetNs = gen.Moments[k%len(gen.Moments)]
+				}
+				if v > 0 {
+					p.Proc = envs[k%len(envs)]
+				}
+				k++
+				out = append(out, p)
+			}
+		}
+	}
 	// (2c) editions: the same article with word-for-word the same metadata and its body in each of three
 	// scripts, one after the other in one process, in both orders, with and without a <title> element
 	{
@@ -405,7 +436,25 @@ func (c *Check) fixedC11() []*plan.Plan {
 }
 
 func (c *Check) randC11(r *gen.Rand, run int, seed uint64) *plan.Plan {
-	batch := gen.Pick(r, []string{"maporder", "maporder", "history", "delivery", "childorder", "pagers", "cpu-speed"})
+	batch := gen.Pick(r, []string{"maporder", "maporder", "history", "delivery", "childorder", "pagers", "cpu-speed", "process-env"})
+	if batch == "process-env" {
+		d := gen.RandDoc(r)
+		c.noteDoc(d)
+		p := c.newPlan(batch, run, seed, "bubble")
+		p.Docs = []plan.Doc{plan.NewDoc("d0", d.Bytes, d.Origin)}
+		p.Trees = []plan.Tree{{ID: "t0", Doc: "d0", Root: "document"}}
+		o := gen.RandOpt(r, "o0", d.URL)
+		o.Flags = 0
+		p.Options = []plan.Opt{o}
+		p.Tasks = [][]plan.Op{{{Op: "Apply", Tree: "t0", Opt: "o0"}, {Op: gen.Pick(r, []string{"Reader", "File"}), Doc: "d0", Opt: "o0"}}}
+		if r.P(2, 3) {
+			p.Schedule.StartOffsetNs = gen.Pick(r, gen.Moments) + int64(r.Intn(86_400_000))*1_000_000
+		}
+		if r.P(2, 3) || p.Schedule.StartOffsetNs == 0 {
+			p.Proc = gen.Pick(r, gen.ProcEnvs())
+		}
+		return p
+	}
 	if batch == "cpu-speed" {
 		d := gen.RandDoc(r)
 		switch r.Intn(4) {
